@@ -2440,6 +2440,15 @@ pub fn compile<I: BufRead, O: Write>(
     let r = Cc2600Parser::parse(Rule::program, preprocessed_utf8);
     match r {
         Err(e) => {
+            // Nothing reached the parser (empty or entirely skipped input): there is no line to map
+            if mapped_lines.is_empty() {
+                return Err(Error::Syntax {
+                    filename: args.input.clone(),
+                    included_in: None,
+                    line: 1,
+                    msg: e.variant.message().to_string(),
+                });
+            }
             let mut ex = e.clone();
             let filename;
             let line;
